@@ -106,6 +106,7 @@ SITES = {
     "assert": lambda E: [f"assert {E} or True, 'never'"],
     "lambda_body": lambda E: [f"r = (lambda: {E})()"],
     "with_body": lambda E: ["with CM() as _cm:", f"    r = {E}"],
+    "with_exit_raises": lambda E: ["with CMR() as _cm:", f"    r = {E}"],
     "nested_if": lambda E: ["if v is not None:", "    if True:", f"        r = {E}"],
     "for_body": lambda E: ["for _i in range(2):", "    if _i == 1:", f"        r = {E}"],
     "while_body": lambda E: ["_n = 0", "while _n < 2:", "    _n += 1", "    if _n == 2:", f"        r = {E}"],
@@ -119,7 +120,7 @@ SITES = {
     "class_base": lambda E: [f"class _Tmp([object][({E} or 0) * 0]):", "    a = 1", "r = _Tmp"],
 }
 # sites that add a frame of their own (name of the extra frame as CPython shows it)
-LINK_KINDS = ["func", "method", "init", "lambda", "closure", "decorated", "module", "staticm"]
+LINK_KINDS = ["func", "method", "init", "lambda", "closure", "decorated", "module", "staticm", "compiled"]
 
 
 class Gen:
@@ -181,8 +182,8 @@ class Gen:
         kinds = []
         for i in range(depth):
             kinds.append(r.choice(LINK_KINDS))
-        # a lambda can only be the last link (its body cannot call pyscript functions)
-        kinds = [("func" if k == "lambda" and i < depth - 1 else k) for i, k in enumerate(kinds)]
+        # a lambda / natively compiled function can only be the last link (its body cannot call pyscript functions)
+        kinds = [("func" if k in ("lambda", "compiled") and i < depth - 1 else k) for i, k in enumerate(kinds)]
         # module links must be a suffix of the chain (a module cannot call back into the script)
         if "module" in kinds:
             j = kinds.index("module")
@@ -191,7 +192,7 @@ class Gen:
         x, m = [], []  # defs for x.py and modules/em.py (defined in reverse order so that names exist when decorators run)
         calls = []
         for i, k in enumerate(kinds):
-            calls.append({"func": f"L{i}(v)", "method": f"K{i}().go(v)", "init": f"K{i}(v)", "lambda": f"L{i}(v)", "closure": f"L{i}(v)", "decorated": f"L{i}(v)", "module": f"em.M{i}(v)" if (i == 0 or kinds[i - 1] != "module") else f"M{i}(v)", "staticm": f"K{i}.go(v)"}[k])
+            calls.append({"compiled": f"L{i}(v)", "func": f"L{i}(v)", "method": f"K{i}().go(v)", "init": f"K{i}(v)", "lambda": f"L{i}(v)", "closure": f"L{i}(v)", "decorated": f"L{i}(v)", "module": f"em.M{i}(v)" if (i == 0 or kinds[i - 1] != "module") else f"M{i}(v)", "staticm": f"K{i}.go(v)"}[k])
         for i in reversed(range(depth)):
             k = kinds[i]
             last = i == depth - 1
@@ -206,7 +207,22 @@ class Gen:
                 lines += self.filler(r.randint(0, 2), ind)
                 return lines
 
-            if k == "func":
+            if k == "compiled":
+                # natively compiled: the fault may sit in a try/finally (or handler) that keeps executing after the raise
+                inner = self.fault("        ")
+                while self.exc_kind == "user:SubErr":
+                    # (a class with a script __init__ cannot be instantiated from native code: documented limitation)
+                    inner = self.fault("        ")
+                wrap = r.choice(["plain", "finally", "finally", "reraise"])
+                if wrap == "plain":
+                    lines_ = [l[4:] for l in inner]
+                elif wrap == "finally":
+                    lines_ = ["    try:"] + inner + ["    finally:", "        q = 0", "        q = 1", "        q = 2"]
+                else:
+                    lines_ = ["    try:"] + inner + ["    except Exception as exc_:", "        q = 0", "        raise RuntimeError('wrapped') from exc_"]
+                    self.exc_kind = "from:RuntimeError"
+                tgt += ["@pyscript_compile", f"def L{i}(v):"] + self.filler(r.randint(0, 2), "    ") + lines_ + ["    return 1", ""]
+            elif k == "func":
                 tgt += [f"def L{i}(v):"] + body("    ") + ["    return 1", ""]
             elif k == "module":
                 tgt += [f"def M{i}(v):"] + body("    ") + ["    return 1", ""]
@@ -232,7 +248,7 @@ class Gen:
         return kinds, x, m, first
 
 
-CM_DEF = ["class CM:", "    def __enter__(self):", "        return self", "", "    def __exit__(self, *a):", "        return False", ""]
+CM_DEF = ["class CM:", "    def __enter__(self):", "        return self", "", "    def __exit__(self, *a):", "        return False", "", "class CMR:", "    def __enter__(self):", "        return self", "", "    def __exit__(self, *a):", "        if a[0] is not None:", "            raise LookupError('exit failed')", "        return False", ""]
 HEAD_X = ["import em", "", "class MyErr(Exception):", "    pass", "", "class SubErr(MyErr):", "    def __init__(self, msg, code):", "        MyErr.__init__(self, msg)", "        self.code = code", "", "G_RES = 0", ""] + CM_DEF
 HEAD_M = ["class MyErr(Exception):", "    pass", "", "class SubErr(MyErr):", "    def __init__(self, msg, code):", "        MyErr.__init__(self, msg)", "        self.code = code", "", "G_RES = 0", ""] + CM_DEF
 
@@ -311,7 +327,7 @@ def _ident(*a, **k):
 def cpython_reference(files, root, entry):
     """Run x.py as a module (and call entry(boom=1) unless the fault is at load time); return the exception chain as blocks of
     (file rel, func, line) plus (type name, message), outermost cause first - the order in which a traceback prints them."""
-    shim = {"vf": _Shim(), "event_trigger": _ident, "state_trigger": _ident, "time_trigger": _ident, "service": _ident, "mqtt_trigger": _ident, "webhook_trigger": _ident, "state_active": _ident, "task": None}
+    shim = {"vf": _Shim(), "pyscript_compile": (lambda f: f), "event_trigger": _ident, "state_trigger": _ident, "time_trigger": _ident, "service": _ident, "mqtt_trigger": _ident, "webhook_trigger": _ident, "state_active": _ident, "task": None}
     old = {k: getattr(builtins, k, None) for k in shim}
     for k, v in shim.items():
         setattr(builtins, k, v)
